@@ -277,7 +277,7 @@ func (c *Ctx) keyedWrites(rule string, fi *load.FuncInfo) int {
 				}
 				if !mentionsInput {
 					// the id of a batch held in a field or local (Delete re-writes the new tail): <X>.Messages[0].Id.Id
-					if e, ok := ast.Unparen(stripConv(info, val)).(*ast.SelectorExpr); !ok || e.Sel.Name != "Id" {
+					if e, ok := ast.Unparen(stripConv(info, val)).(*ast.SelectorExpr); !ok || (e.Sel.Name != "Id" && e.Sel.Name != "Index") {
 						okSrc = false
 					}
 				}
@@ -502,10 +502,40 @@ func (c *Ctx) c08Lookups() {
 		return nil
 	}
 	// (a) whenever the successor look-up failed, the range search runs before the wait section
+	isCondWait := func(i2 *types.Info, call *ast.CallExpr) bool {
+		if se, ok := ast.Unparen(call.Fun).(*ast.SelectorExpr); ok && se.Sel.Name == "Wait" {
+			if fn := astx.Callee(i2, call); fn != nil && fn.Pkg() != nil && fn.Pkg().Path() == "sync" {
+				return true
+			}
+		}
+		return false
+	}
+	// the function that holds the wait loop: GetNext itself or a helper it calls
+	waitFn := gn
+	waiters := map[*types.Func]*load.FuncInfo{}
+	for _, fi := range c.P.FuncsIn("outputstream") {
+		if fi.Body() == nil || fi.Obj == nil {
+			continue
+		}
+		for _, call := range astx.Calls(fi.Body(), false) {
+			if isCondWait(fi.Info(), call) {
+				waiters[fi.Obj] = fi
+			}
+		}
+	}
 	var waitLock = -1
 	for _, v := range g.Nodes() {
 		if isLockCall(info, v.Node, "messagesMu", "Lock") {
 			waitLock = v.ID
+		}
+	}
+	if waitLock < 0 {
+		for _, v := range g.Nodes() {
+			for _, call := range astx.Calls(v.Node, false) {
+				if fn := astx.Callee(info, call); fn != nil && waiters[fn] != nil {
+					waitLock, waitFn = v.ID, waiters[fn]
+				}
+			}
 		}
 	}
 	nFail := 0
@@ -644,49 +674,48 @@ func (c *Ctx) c08Lookups() {
 		r.Break("C08.S9: no unranged NewIterator found in GetNext")
 	}
 	// (c) the wait loop waits on every way round
-	ast.Inspect(gn.Body(), func(n ast.Node) bool {
+	wi, wg := waitFn.Info(), c.Graph(waitFn)
+	ast.Inspect(waitFn.Body(), func(n ast.Node) bool {
 		fs, ok := n.(*ast.ForStmt)
 		if !ok || len(fs.Body.List) == 0 {
 			return true
 		}
 		hasLookup := false
 		for _, call := range astx.Calls(fs.Body, false) {
-			if gu != nil && astx.Callee(info, call) == gu.Obj {
+			if gu != nil && astx.Callee(wi, call) == gu.Obj {
 				hasLookup = true
 			}
 		}
 		if !hasLookup {
 			return true
 		}
-		start := g.VertexOf(fs.Body.List[0])
+		start := wg.VertexOf(fs.Body.List[0])
 		isWait := func(x int) bool {
-			if g.V[x].Node == nil {
+			if wg.V[x].Node == nil {
 				return false
 			}
-			for _, call := range astx.Calls(g.V[x].Node, false) {
-				if se, ok := ast.Unparen(call.Fun).(*ast.SelectorExpr); ok && se.Sel.Name == "Wait" {
-					if fn := astx.Callee(info, call); fn != nil && fn.Pkg() != nil && fn.Pkg().Path() == "sync" {
-						return true
-					}
+			for _, call := range astx.Calls(wg.V[x].Node, false) {
+				if isCondWait(wi, call) {
+					return true
 				}
 			}
 			return false
 		}
 		spin := false
 		if start >= 0 {
-			reach := g.Reach(start, isWait, nil)
-			for x := range g.V {
+			reach := wg.Reach(start, isWait, nil)
+			for x := range wg.V {
 				if !(reach[x] || x == start) || isWait(x) {
 					continue
 				}
-				for _, e := range g.V[x].Succ {
+				for _, e := range wg.V[x].Succ {
 					if e.To == start && x != start {
 						spin = true
 					}
 				}
 			}
 		}
-		r.Check(start >= 0 && !spin, "C08.S9", gn.Name(), "the wait loop blocks on the condition variable on every way round", c.P.Pos(fs.Pos()), "newMessage.Wait() on every path back to the loop head",
+		r.Check(start >= 0 && !spin, "C08.S9", waitFn.Name(), "the wait loop blocks on the condition variable on every way round", c.P.Pos(fs.Pos()), "newMessage.Wait() on every path back to the loop head",
 			"the loop that waits for the successor can go round without calling Wait(): it spins with messagesMu held in write mode, so Add can never store the batch it is waiting for")
 		return true
 	})
